@@ -91,6 +91,7 @@ func C10(c *core.Ctx) {
 	}
 	checkEncDec(c, "R0", tabs) // only the 32 IUPAC symbols (and no other byte, e.g. U) are sequence symbols
 	checkWorkersStateless(c, "R8", tabs, "pkg/updown")
+	c16Structural(c, "pkg/fastaio") // every sequence of the file gets its row: a read fault is reported, and the readers share one line limit
 	// one row per sequence also when a row could not be written: the failure of any row's write is reported (the path rule
 	// of C19, on the list writer only)
 	{
